@@ -126,6 +126,11 @@ fn main() {
         std::process::exit(0);
     }
     if let Some(p) = &cli.replay {
+        let v: Value = serde_json::from_str(&std::fs::read_to_string(p).unwrap_or_default()).unwrap_or(Value::Null);
+        if v["replay"]["part"] == "live" {
+            vh::install_quiet_panic_hook();
+            std::process::exit(vh::c07live::replay_live(&v["replay"], cli.seed));
+        }
         run_replay(&entries, p);
     }
     let jobs: Vec<Job> = c07::jobs(&entries, thorough);
@@ -262,6 +267,7 @@ fn main() {
     rep.assume("allocation is the sum of bytes requested from the global allocator during the call; the constant part of the bound is 64 KiB except for PeerConnection-level entries (4 MiB: transceivers, sockets and ICE/DTLS objects are created regardless of the remote text)");
     rep.assume("time and allocation excesses are re-measured up to three times and the minimum counts (scheduler noise, lazily initialised thread-locals)");
     rep.assume("a hang is a call that does not return within 10 s in the child process");
+    rep.assume("PeerConnection-level entries run on a current-thread runtime with a paused clock: bounded timer waits inside the stack (2 s wait for a non-loopback local candidate in start_direct when the mutated c= address is not loopback, 500 ms gathering wait in SDES mode) are not charged to the input; the harness binds to 127.0.0.1 only");
 
     // ---- violations -----------------------------------------------------------------------
     // per entry: one violation per (panic site), minimised; signatures carry no line numbers.
@@ -364,6 +370,9 @@ fn main() {
     if !vacuous.is_empty() && std::env::var("C07_ONLY").is_err() {
         vh::machinery_failure(&format!("vacuous entry points (no accepted input or a single outcome): {vacuous:?}"));
     }
-    c07::live_part(&mut rep, thorough);
+    // live-endpoint part (engine E2): catalogue datagrams injected into live endpoints at every stage
+    vh::install_quiet_panic_hook();
+    let live_n = vh::c07live::live_part(&mut rep, thorough, cli.seed);
+    rep.add("evaluations", live_n);
     std::process::exit(rep.finish());
 }
